@@ -9,6 +9,8 @@ import Proofs.Toks
 import Proofs.TokCore
 import Proofs.ReplaceToks
 import Proofs.Reinsert
+import PM.FragOps
+import Proofs.FragOps
 namespace PM.C02
 open PM
 
@@ -196,5 +198,224 @@ end Example
    (evidence: counters `replace:ok`, `model_requests`).  Kernel evaluation (`decide`) of the
    recursive model functions is not available because Lean compiles recursion through the nested
    `kids` lists by well-founded recursion. -/
+
+/-! ## fragment constructors
+
+The `Fragment` *object* of fragment.py with its **stored** `size` (`Frag`, PM/FragOps.lean): `from_array`, `from_`,
+`append`, `cut`, `cut_by_index`, `replace_child`, `add_to_start`, `add_to_end`, `eq`, modelled line by line (the loop of
+`from_array` with its `joined` / `array[i - 1]` bookkeeping, the emptiness tests of `append` on the stored sizes, the
+incrementally maintained size handed to the constructor).  `Frag.WF f` : the stored size is the size of the content.
+Every statement is about the token sequence (`ftoks`) and the stored size, so both a wrong join and a stale cache
+contradict it.  Tied exactly by harness/props/c02_frag.py. -/
+
+/-- the hypotheses used below are decidable and met by ordinary fragments: a right cache, normal-form content -/
+example : (⟨[.text [97, 98] [], .leaf 0 [] []], 3⟩ : Frag).WF ∧
+    fnorm [.text [97, 98] [], .leaf 0 [] []] = true ∧ ¬ (⟨[.leaf 0 [] []], 0⟩ : Frag).WF := by decide
+
+/-- **`from_array` as written is the fold of `add_node`**: it never reaches its assertion, its content is the
+    list-level `fromArray` every other theorem speaks about, and the size it stores is the sum of the input sizes -/
+theorem fromArray_exact (l : List Node) : Frag.fromArray l = .ok ⟨fromArray l, fsize l⟩ := Frag.fromArray_eq l
+
+/-- **tokens of `from_array l` = concatenation of the tokens of `l`** -/
+theorem fromArray_toks (l : List Node) : ∃ f, Frag.fromArray l = .ok f ∧ ftoks f.content = ftoks l :=
+  ⟨_, Frag.fromArray_eq l, PM.fromArray_toks l⟩
+
+/-- the stored size is the sum of the input sizes **and** the size of the joined content (the cache is right) -/
+theorem fromArray_size (l : List Node) :
+    ∃ f, Frag.fromArray l = .ok f ∧ f.size = fsize l ∧ f.WF ∧ f.size = (ftoks f.content).length := by
+  refine ⟨_, Frag.fromArray_eq l, rfl, ?_, ?_⟩
+  · unfold Frag.WF; simp [PM.fromArray_size]
+  · simp [ftoks_length, PM.fromArray_size]
+
+/-- **no two adjacent same-markup text children remain** — for every input (an empty text node is not dropped: it
+    is joined like any other, see the `example` below); if moreover the inputs are in normal form (no empty text
+    anywhere, normal inside) the result is in normal form -/
+theorem fromArray_norm (l : List Node) :
+    ∃ f, Frag.fromArray l = .ok f ∧ chainOk f.content = true ∧ (fnormKids l = true → fnorm f.content = true) :=
+  ⟨_, Frag.fromArray_eq l, fromArray_chain l, PM.fromArray_norm l⟩
+
+/-- nothing to join (no two adjacent same-markup text nodes): `from_array` is `Fragment(array)` -/
+theorem fromArray_of_chain (l : List Node) (h : chainOk l = true) : Frag.fromArray l = .ok (Frag.ofList l) := by
+  rw [Frag.fromArray_eq, PM.fromArray_of_chain l h]; rfl
+
+/-- **idempotent**: `from_array` of the content of a `from_array` result is that result -/
+theorem fromArray_idem (l : List Node) (f : Frag) (h : Frag.fromArray l = .ok f) : Frag.fromArray f.content = .ok f := by
+  rw [Frag.fromArray_eq] at h
+  cases h
+  rw [Frag.fromArray_eq, PM.fromArray_idem, PM.fromArray_size]
+
+/-- **child count = number of inputs − number of joins**, a join being an adjacent pair of same-markup text nodes of
+    the input (`joinFrom none l` counts them, Proofs/FragOps.lean) -/
+theorem fromArray_childCount (l : List Node) :
+    ∃ f, Frag.fromArray l = .ok f ∧ f.childCount + joinFrom none l = l.length :=
+  ⟨_, Frag.fromArray_eq l, fromArray_length l⟩
+
+/-- … so a join removes a child, never adds one -/
+theorem fromArray_childCount_le (l : List Node) : ∃ f, Frag.fromArray l = .ok f ∧ f.childCount ≤ l.length := by
+  obtain ⟨f, h1, h2⟩ := fromArray_childCount l
+  exact ⟨f, h1, by omega⟩
+
+example : joinFrom none [.text [97] [], .text [98] [], .leaf 0 [] [], .text [99] [], .text [100] [⟨1, []⟩]] = 1 := by rfl
+
+/-- `Fragment.from_`: `None` and the empty list give the empty fragment, a fragment is returned as it is, a list goes
+    through `from_array`, a single node becomes a one-child fragment; the cache of the result is right (given that of
+    a fragment argument) and the tokens are those of the argument -/
+theorem from_spec (arg : FromArg) :
+    ∃ f, Frag.from_ arg = .ok f ∧
+      (match arg with
+        | .none => f = Frag.empty
+        | .frag g => f = g
+        | .list l => ftoks f.content = ftoks l ∧ f.WF ∧ f.content = fromArray l
+        | .node n => f.content = [n] ∧ f.WF) := by
+  cases arg with
+  | none => exact ⟨_, rfl, rfl⟩
+  | frag g => exact ⟨_, rfl, rfl⟩
+  | node n => exact ⟨_, rfl, rfl, by unfold Frag.WF; simp⟩
+  | list l =>
+    unfold Frag.from_
+    cases l with
+    | nil => exact ⟨_, rfl, by simp [Frag.empty], Frag.empty_WF, by simp [Frag.empty, PM.fromArray, addNodes]⟩
+    | cons n ns =>
+      simp only [List.isEmpty_cons, Bool.false_eq_true, if_false]
+      refine ⟨_, Frag.fromArray_eq _, PM.fromArray_toks _, ?_, rfl⟩
+      unfold Frag.WF; simp [PM.fromArray_size]
+
+/-- **`append`**: on operands whose cache is right it returns, the tokens are concatenated, the sizes add, the cache of
+    the result is right -/
+theorem append_toks (a b : Frag) (ha : a.WF) (hb : b.WF) :
+    ∃ r, Frag.append a b = .ok r ∧ ftoks r.content = ftoks a.content ++ ftoks b.content ∧
+      r.size = a.size + b.size ∧ r.WF := by
+  obtain ⟨r, h1, h2, h3, h4⟩ := Frag.append_spec a b ha hb
+  exact ⟨r, h1, h4, h3, h2⟩
+
+/-- **normal-form operands give a normal-form result** (one join at the seam is enough) -/
+theorem append_norm (a b : Frag) (ha : a.WF) (hb : b.WF) (na : fnorm a.content = true) (nb : fnorm b.content = true) :
+    ∃ r, Frag.append a b = .ok r ∧ r.content = fappend a.content b.content ∧ fnorm r.content = true := by
+  have z : ∀ l : List Node, fnorm l = true → ∀ c, c ∈ l → c.size ≠ 0 := by
+    intro l hl c hc
+    have : fnormKids l = true := by simp only [fnorm, Bool.and_eq_true] at hl; exact hl.1
+    have hcn : c.norm = true := by
+      induction l with
+      | nil => simp at hc
+      | cons x xs ih =>
+        simp only [fnormKids, Bool.and_eq_true] at this
+        rcases List.mem_cons.1 hc with rfl | h
+        · exact this.1
+        · exact ih (by simp [fnorm, this.2, chainOk_tail (by simp only [fnorm, Bool.and_eq_true] at hl; exact hl.2)]) h this.2
+    exact Nat.ne_of_gt (Node.size_pos_of_norm c hcn)
+  exact ⟨_, Frag.append_fappend a b ha hb (z _ na) (z _ nb), rfl, fappend_norm _ _ na nb⟩
+
+/-- with a stale cache `append` can drop an operand or trip its assertion: the emptiness tests read the stored size -/
+example : Frag.append ⟨[.leaf 0 [] []], 0⟩ ⟨[.leaf 1 [] []], 1⟩ = .ok ⟨[.leaf 1 [] []], 1⟩ := by rfl
+example : Frag.append ⟨[], 1⟩ ⟨[.leaf 1 [] []], 1⟩ = .error .internal := by rfl
+
+/-- **`replace_child`**: the index is a Python list index (`pyIdx`: `-len ≤ i < 0` wraps around, otherwise
+    `IndexError`); the child at that place is replaced — a splice of the token sequence — and a right cache stays right -/
+theorem replaceChild_toks (f : Frag) (i : Int) (n : Node) (r : Frag) (h : Frag.replaceChild f i n = .ok r) :
+    ∃ k cur, pyIdx f.content.length i = some k ∧ f.content[k]? = some cur ∧
+      r.content = replaceChild f.content k n ∧
+      ftoks r.content = ftoks (f.content.take k) ++ n.toks ++ ftoks (f.content.drop (k + 1)) ∧
+      ftoks f.content = ftoks (f.content.take k) ++ cur.toks ++ ftoks (f.content.drop (k + 1)) ∧
+      r.size = f.size + n.size - cur.size ∧ (f.WF → r.WF) := by
+  obtain ⟨k, cur, h1, h2, h3, h4, h5, h6⟩ := Frag.replaceChild_spec f i n r h
+  refine ⟨k, cur, h1, h2, h3, ?_, ?_, h5, h6⟩
+  · rw [h4]; simp [ftoks_append]
+  · conv => lhs; rw [(ftoks_set f.content k cur n h2).2]
+    simp [ftoks_append]
+
+/-- it fails exactly when the index is out of range -/
+theorem replaceChild_total (f : Frag) (i : Int) (n : Node) :
+    (∃ r, Frag.replaceChild f i n = .ok r) ↔ -(f.content.length : Int) ≤ i ∧ i < f.content.length := by
+  unfold Frag.replaceChild pyIdx
+  by_cases h0 : 0 ≤ i
+  · rw [if_pos h0]
+    by_cases h1 : i.toNat < f.content.length
+    · rw [if_pos h1]
+      simp only [List.getElem?_eq_getElem h1]
+      exact ⟨fun _ => by omega, fun _ => ⟨_, rfl⟩⟩
+    · rw [if_neg h1]
+      exact ⟨fun ⟨_, h⟩ => by simp at h, fun _ => by omega⟩
+  · rw [if_neg h0]
+    by_cases h1 : -(f.content.length : Int) ≤ i
+    · rw [if_pos h1]
+      have h2 : (i + f.content.length).toNat < f.content.length := by omega
+      simp only [List.getElem?_eq_getElem h2]
+      exact ⟨fun _ => by omega, fun _ => ⟨_, rfl⟩⟩
+    · rw [if_neg h1]
+      exact ⟨fun ⟨_, h⟩ => by simp at h, fun _ => by omega⟩
+
+/-- the code's shortcut `if current == node: return self` (object identity) returns what the general branch
+    computes: replacing a child by itself gives the same fragment, stored size included -/
+theorem replaceChild_same (f : Frag) (i : Int) (k : Nat) (n : Node) (hk : pyIdx f.content.length i = some k)
+    (hc : f.content[k]? = some n) : Frag.replaceChild f i n = .ok f := by
+  unfold Frag.replaceChild
+  rw [hk]; simp only [hc]
+  have e : f.content.set k n = f.content := by
+    have hlt : k < f.content.length := by
+      rcases Nat.lt_or_ge k f.content.length with h | h
+      · exact h
+      · rw [List.getElem?_eq_none h] at hc; simp at hc
+    rw [List.getElem?_eq_getElem hlt] at hc
+    simp only [Option.some.injEq] at hc
+    rw [← hc]; exact List.set_getElem_self hlt
+  rw [e]
+  cases f with
+  | mk c s => simp
+
+/-- **`add_to_start` / `add_to_end`** -/
+theorem addToStart_toks (f : Frag) (n : Node) :
+    ftoks (f.addToStart n).content = n.toks ++ ftoks f.content ∧ (f.addToStart n).size = f.size + n.size ∧
+      (f.WF → (f.addToStart n).WF) := by
+  refine ⟨by simp [Frag.addToStart], rfl, ?_⟩
+  intro h; unfold Frag.WF at h ⊢; simp [Frag.addToStart, h]; omega
+
+theorem addToEnd_toks (f : Frag) (n : Node) :
+    ftoks (f.addToEnd n).content = ftoks f.content ++ n.toks ∧ (f.addToEnd n).size = f.size + n.size ∧
+      (f.WF → (f.addToEnd n).WF) := by
+  refine ⟨by simp [Frag.addToEnd, ftoks_append], rfl, ?_⟩
+  intro h; unfold Frag.WF at h ⊢; simp [Frag.addToEnd, fsize_append, h]
+
+/-- **`cut`** on a fragment whose cache is right is the list-level `fcut` (whose tokens `slice_toks` describes), the
+    default `to` is the size, and the result's cache is right -/
+theorem cut_exact (f : Frag) (hf : f.WF) (a b : Nat) :
+    Frag.cut f a (some b) = (fcut f.content a b).map Frag.ofList ∧
+    Frag.cut f a none = Frag.cut f a (some (fsize f.content)) ∧
+    (∀ t r, Frag.cut f a t = .ok r → r.WF) :=
+  ⟨Frag.cut_some f hf a b, Frag.cut_none f hf a, fun t r h => Frag.cut_WF f hf a t r h⟩
+
+/-- **`cut_by_index`** with natural-number bounds keeps exactly the children `from_ ≤ i < to` (Python slices clamp, so
+    also for bounds beyond the end), and the cache of the result is right -/
+theorem cutByIndex_exact (f : Frag) (hf : f.WF) (a b : Nat) :
+    (Frag.cutByIndex f a (some (b : Int))).content = (f.content.take b).drop a ∧
+    ftoks (Frag.cutByIndex f a (some (b : Int))).content = ftoks ((f.content.take b).drop a) ∧
+    (∀ (x : Int) (y : Option Int), (Frag.cutByIndex f x y).WF) := by
+  have := Frag.cutByIndex_content f a b
+  unfold PM.cutByIndex at this
+  exact ⟨this, by rw [this], fun x y => Frag.cutByIndex_WF f hf x y⟩
+
+/-- `cut_by_index` recomputes the size whenever it builds a new fragment: a stale cache is healed unless the receiver
+    itself is returned -/
+theorem cutByIndex_heals (f : Frag) (x : Int) (y : Option Int)
+    (h : ¬ (x = 0 ∧ y = some (f.content.length : Int))) : (Frag.cutByIndex f x y).WF := by
+  unfold Frag.cutByIndex
+  split
+  · exact Frag.empty_WF
+  · exact Frag.ofList_WF _
+
+/-- **`Fragment.eq`** is equality of the child lists; the stored sizes are not looked at -/
+theorem eq_iff (a b : Frag) : Frag.eq a b = true ↔ a.content = b.content := lenZip_iff a.content b.content
+
+/-- the empty text node is kept and joined like any other (the real `TextNode` constructor refuses the empty
+    string, so real arrays contain none) -/
+example : Frag.fromArray [.text [] [], .leaf 0 [] []] = .ok ⟨[.text [] [], .leaf 0 [] []], 1⟩ := by rfl
+example : Frag.fromArray [.text [97] [], .text [] [], .text [98] []] = .ok ⟨[.text [97, 98] []], 2⟩ := by rfl
+
+/-- **sensitivity**: the loop with `last = array[i - 1]` in place of `last = joined[-1]` (`Frag.fromArrayBad`,
+    Proofs/FragOps.lean — seeded defect C17-r4m1) loses text on a run of three and leaves the stored size stale;
+    on runs of two it is indistinguishable -/
+example : Frag.fromArrayBad [.text [97] [], .text [98] [], .text [99] []] = .ok ⟨[.text [98, 99] []], 3⟩ := by rfl
+example : Frag.fromArray [.text [97] [], .text [98] [], .text [99] []] = .ok ⟨[.text [97, 98, 99] []], 3⟩ := by rfl
+example : Frag.fromArrayBad [.text [97] [], .text [98] []] = Frag.fromArray [.text [97] [], .text [98] []] := by rfl
+
 
 end PM.C02
